@@ -390,6 +390,7 @@ def c13_rf16(run):
     rf_proto.rf16l(run)
     rf_proto.rf79(run)
     rf_proto.rf108(run)
+    rf_proto.rf123(run)
 
 
 def c14_rf16f(run):
@@ -439,6 +440,7 @@ def c03_rf11(run):
     rf_x86.rf77(run)
     rf_iface.rf89(run)
     rf_x86.rf104(run)
+    rf_x86.rf124(run)
     rf_abi.rf111(run)
 
 
